@@ -170,6 +170,19 @@ def run_history(args):
                                 query=[s, e, method])
                             break
         lo, hi = model.bounds()
+        # a query for a column no sample has (files aged beyond their cadence first): whatever it
+        # returns or raises, every written sample must still be there afterwards
+        for r_, d_, fs_ in os.walk(mdir):
+            for f_ in fs_:
+                os.utime(os.path.join(r_, f_), (1000000000, 1000000000))
+        try:
+            r.read(lo, hi, columns="no_such_field")
+        except (KeyError, IOError):
+            pass
+        part["evaluations"] += 1
+        again = [int(k) for k in drf.DigitalMetadataReader(mdir).read(lo, hi)]
+        if again != sorted(model.samples):
+            bad({"class": "samples_lost_after_column_query"}, "after read(columns='no_such_field'): %s, written %s" % (again, sorted(model.samples)))
         for s in edges:
             for (qs, qe) in ((s, hi + 1), (max(lo - 1, 0), s)):
                 if qe < qs:
